@@ -5,8 +5,12 @@
      Bind (EveryParameterBoundExactlyOnce, NoExtraNames, ErrorIffNoValidAssignment, ReservedOnlyDrops);
      spec/PyBindFlat.tla: every way of writing such a call with *seq / **map, theorem Flatten.
 (T)  (a) the same family is executed under CPython and under pyscript's interpreter; the recorded
-     outcome (class + complete binding map) of every call is validated by spec/PyBindTrace.tla;
-     (b) random multi-function programs (JSON AST) are run under both interpreters with a tracer;
+     outcome (class + the VALUE every parameter received) of every call is validated by spec/PyBindTrace.tla;
+     the values written at the defaults and arguments are a dimension of the family (valuations: distinct
+     truthy constants / falsy values of every built-in type / truthy values of other types);
+     (b) random multi-function programs (JSON AST) and two systematic families (capture: which activation
+     does a closure capture; mention: at which syntactic position does it mention the captured variable and
+     in which form did the owner bind it) are run under both interpreters with a tracer;
      the PyScope machine (spec/PyScope.tla) computes the expected log, spec/PyScopeTrace.tla compares.
      CPython rejected = the specification is wrong (MachineryFailure); pyscript rejected =
      ctx.report(signature), classified by the named deviation flags / marked loci of the specs.
@@ -184,7 +188,11 @@ def scope_jobs(ctx):
     # did the owner bind it): every (position, via) in both tiers; quick: one binding form each, rotating with the
     # seed; thorough: all eight
     men = [(list(m), ctx.seed) for m in S.men_members(ctx.pick(1, len(S.MEN_BIND)), ctx.seed)]
-    jobs.append({"seeds": [], "mention": men, "out": os.path.join(ctx.scratch, "scope_men.json")})
+    nmen = ctx.pick(1, 3)
+    for k in range(nmen):
+        jobs.append({"seeds": [], "mention": men[k::nmen], "out": os.path.join(ctx.scratch, "scope_men%d.json" % k)})
+    # the exit family (whose declarations govern a caller's names after a callee left by an exception): every member
+    jobs[-1]["exit"] = [(list(m), ctx.seed + v) for v in range(ctx.pick(1, 3)) for m in S.exit_members()]
     return jobs
 
 
@@ -211,6 +219,7 @@ def report_scope(ctx, stats, results, label="scope"):
     ncorrupt = 0
     cap = {"programs": 0, "ambiguous": 0, "nldyn": 0, "swap_corruptions": 0, "rejected": 0, "by_stack": {}, "by_via": {}}
     men = {"programs": 0, "encsub": 0, "annloc": 0, "corruptions": 0, "rejected": 0, "by_pos": {}, "by_bind": {}, "by_via": {}}
+    exi = {"programs": 0, "excexit": 0, "rejected": 0}
     for st, res in zip(stats, results):
         for k in tot:
             tot[k] += st[k]
@@ -243,9 +252,17 @@ def report_scope(ctx, stats, results, label="scope"):
             mk = marks.get(pid, [])
             for x in mk:
                 marks_count[x] = marks_count.get(x, 0) + 1
-            is_masked = not m["loci"] and not [x for x in mk if x not in ("sv", "xdel", "amb", "encsub")]
+            is_masked = not m["loci"] and not [x for x in mk if x not in ("sv", "xdel", "amb", "encsub", "excexit")]
             fam = m.get("family")
-            if fam and fam.get("fam") == "mention":
+            if fam and fam.get("fam") == "exit":
+                # witness: the machine sees an exception leave a callee exactly in the members assembled that way
+                if ("excexit" in mk) != fam["excexit"]:
+                    raise MachineryFailure("exit family: member %s assembled with excexit=%s, the machine's census says %s\n%s"
+                                           % (pid, fam["excexit"], mk, m["src"]))
+                exi["programs"] += 1
+                exi["excexit"] += "excexit" in mk
+                exi["rejected"] += pid in rejected
+            elif fam and fam.get("fam") == "mention":
                 # witness: the machine's census agrees with how the member was assembled - the item is stored through
                 # a container / index of an enclosing activation exactly in the target positions; the annotated
                 # binding form is seen by the machine exactly in the members assembled with it
@@ -306,6 +323,9 @@ def report_scope(ctx, stats, results, label="scope"):
         if men["programs"] < nmen or men["encsub"] < nmen // 3 or men["corruptions"] < nmen:
             raise MachineryFailure("vacuous mention family: %s" % men)
         ctx.cov["mention_family"] = men
+        if exi["programs"] < len(S.exit_members()) or exi["excexit"] < exi["programs"] // 2:
+            raise MachineryFailure("vacuous exit family: %s" % exi)
+        ctx.cov["exit_family"] = exi
         ctx.cov["selftest_corruptions_rejected"] = ctx.cov.get("selftest_corruptions_rejected", 0) + ncorrupt
     ctx.cov[label] = dict(tot, masked_programs=masked, unmasked_programs=unmasked, masked_rejections=masked_rej,
                           unmasked_rejections=unmasked_rej, not_demanded=skipped, distinct_programs=len(shapes),
@@ -482,6 +502,9 @@ def replay(ctx):
     elif isinstance(seed, str) and seed.startswith("r:"):
         via, acc, var, stack, rs = seed[2:].split("/")
         job = {"seeds": [], "capture": [([via, acc, var, stack], int(rs))], "out": out}
+    elif isinstance(seed, str) and seed.startswith("x:"):
+        exitk, status, action, depth, rs = seed[2:].split("/")
+        job = {"seeds": [], "exit": [([exitk, status, action, depth], int(rs))], "out": out}
     elif isinstance(seed, str) and seed.startswith("n:"):
         pos, role, via, bind, rs = seed[2:].split("/")
         job = {"seeds": [], "mention": [([pos, role, via, bind], int(rs))], "out": out}
@@ -572,10 +595,14 @@ def main(ctx):
         "them plus an unknown name and the undeclared reserved trigger_type; every (signature, flattened call) pair of naming A "
         "(756 x 785, the family of PyBindMC) is executed under CPython in %d written "
         "realisation(s) (explicit / *seq / **map) plus every written call shape against f(*va, **kw); pyscript executes %s; naming B: "
-        "a 1/8 sample of the pairs under both interpreters (thorough: all); "
+        "a 1/8 sample of the pairs under both interpreters (thorough: all), written with 20 valuations (which VALUES stand at "
+        "the defaults and arguments: the distinct truthy constants / every default falsy / every argument falsy / both / "
+        "mixtures with truthy values of other types; the universal groups of naming A likewise); "
         "non-trivial = the signature has a parameter and the call an argument; distinct by (signature, written call). "
         "scoping: random programs (nested definitions to depth 4, global/nonlocal, closures in loops, bounded recursion, "
-        "user decorators, classes, lambda/@pyscript_compile); non-trivial = at least one nested definition and one logged "
+        "user decorators, classes, lambda/@pyscript_compile, list objects with subscript / tuple / chained / annotated "
+        "assignment, for, with, del and augmented-assignment targets) + the capture family (276) + the mention family "
+        "(30 syntactic positions x 3 lexical paths, binding forms rotating); non-trivial = at least one nested definition and one logged "
         "event; distinct by source text. distinct_nontrivial = pyscript-executed non-trivial calls + distinct programs"
         % (ctx.pick(1, 2), ctx.pick("a fixed 1/8 sample of the calls (state sample)", "all of them")))
     ctx.cov["timing_s"] = {"bind_exec": round(btime[0], 1), "bind_tlc": round(btime[1], 1), "scope_exec": round(stime[0], 1),
